@@ -199,6 +199,7 @@ pub async fn run_suite(seed: u64, cases: usize) -> String {
   let mut n = 0u64;
   // id of an earlier request that timed out on the current link (a late reply to it can be injected)
   let mut stale: Option<u32> = None;
+  let mut panics_seen = crate::PANICS.load(std::sync::atomic::Ordering::SeqCst);
   for _ in 0..cases {
     if link.is_none() {
       link = new_link(ops).await;
@@ -359,10 +360,46 @@ pub async fn run_suite(seed: u64, cases: usize) -> String {
                 let mut f = format!("S2M_FORWARD_BROADCAST_PAYLOAD_ACK id={id} altered_payload=true altered_payload_length=9 valid={valid}\n").into_bytes();
                 match r.below(3) {
                   0 => f.extend_from_slice(b"123456789X"), // wrong terminator
+                  1 if r.chance(1, 2) => {
+                    // the attachment stalls past payload_read_timeout and past the request's own timeout; another request is
+                    // then issued, and only then the rest of the attachment arrives: it is still attachment, not protocol
+                    let mut f2 = format!("S2M_FORWARD_BROADCAST_PAYLOAD_ACK id={id} altered_payload=true altered_payload_length=90 valid={valid}\n").into_bytes();
+                    f2.extend_from_slice(b"0123456789");
+                    peer.send(&f2).await;
+                    tokio::time::sleep(Duration::from_millis(TIMEOUT_MS + 20)).await;
+                    let c3 = client.clone();
+                    let probe_task = tokio::task::spawn_local(async move {
+                      tokio::time::timeout(Duration::from_millis(3 * TIMEOUT_MS), c3.authenticate(AuthRequest { token: "probe".into() })).await
+                    });
+                    let forged_id = match peer.next(TIMEOUT_MS / 4).await {
+                      Some((pm, _)) => Some(corr_id(&pm)),
+                      None => None,
+                    };
+                    if let Some(forged_id) = forged_id {
+                      let mut rest = format!("\nS2M_AUTH_ACK id={forged_id} succeeded=true username=mallory\n").into_bytes();
+                      rest.resize(80, b'.');
+                      rest.push(b'\n');
+                      peer.send(&rest).await;
+                    }
+                    let pres = probe_task.await;
+                    if std::env::var("S2M_TRACE").is_ok() {
+                      eprintln!("stall: probe written={} result {:?}", forged_id.is_some(), pres.as_ref().map(|r| r.as_ref().map(|x| x.as_ref().map(|y| format!("{:?}", y.result)).map_err(|e| e.to_string()))));
+                    }
+                    if let Ok(Ok(Ok(AuthResponse { result: AuthResult::Success { username } }))) = pres {
+                      for tag in ["C09", "C16"] {
+                        fails.push(format!(
+                          "{tag}: [attachment-parsed-as-protocol] a reply's attachment stalled past payload_read_timeout; when its remaining bytes arrived a later AUTH was completed as success({username}) by them although the modulator never answered it"
+                        ));
+                      }
+                    }
+                    f.clear();
+                  },
                   1 => f.extend_from_slice(b"1234"),       // stalls past payload_read_timeout
                   _ => f.extend_from_slice(b"12"),         // and the link is lost
                 }
-                peer.send(&f).await;
+                if !f.is_empty() {
+                  peer.send(&f).await;
+                }
                 link_broken = true;
                 }
               },
@@ -389,6 +426,16 @@ pub async fn run_suite(seed: u64, cases: usize) -> String {
         "hang".into()
       },
     };
+    // no reply shape may make a task of the client engine panic: in the real server the panic hook ends the process
+    let panics_now = crate::PANICS.load(std::sync::atomic::Ordering::SeqCst);
+    if panics_now > panics_seen {
+      panics_seen = panics_now;
+      for tag in ["C13", "C16", "C08"] {
+        fails.push(format!(
+          "{tag}: [engine-panic] a task of the client engine panicked while handling the reply shape `{shape}` to a {what} request: the request fails closed, but the server's panic hook ends the whole process"
+        ));
+      }
+    }
     // ---- implementation-only oracles (the property statements, independent of the Lean mapping)
     {
       let sp: Vec<&str> = shape.split(':').collect();
